@@ -1,6 +1,7 @@
 package harness
 
 import (
+	"math/big"
 	"fmt"
 	"strings"
 	"time"
@@ -282,6 +283,8 @@ func runC06(env *Env, tier string) {
 				if sg == "3,5" && (pre42 || rej.Str(373) == want) {
 					ok = true
 				}
+			case "drop":
+				ok = ok || sg == ""
 			case "plain":
 				if sg == "3" {
 					if pre42 {
@@ -384,7 +387,7 @@ func plantDefects(env *Env, c EngineCfg, n int, seqAllowed bool, s *Sut, pre42 b
 				continue
 			}
 			used["comp"] = true
-			k := ch.Choose("compdefect", 7)
+			k := ch.Choose("compdefect", 9)
 			str := func(v string) *string { return &v }
 			switch k {
 			case 0:
@@ -408,6 +411,19 @@ func plantDefects(env *Env, c EngineCfg, n int, seqAllowed bool, s *Sut, pre42 b
 			case 6:
 				o.Target = str("")
 				ds = append(ds, c06Defect{"target-empty", "plain", 56})
+			case 7, 8:
+				// the field is absent; a field whose tag text is 2^64 + that tag carries the value. Such a
+				// message is unparsable (dropped) or lacks the field - it is not a message WITH the field.
+				tag, val := 49, c.Target
+				if k == 8 {
+					tag, val = 56, c.Sender
+					o.Target = str("\x00")
+				} else {
+					o.Sender = str("\x00")
+				}
+				alias := new(big.Int).Add(new(big.Int).Lsh(big.NewInt(1), 64), big.NewInt(int64(tag)))
+				o.Extra = append(o.Extra, wire.Field{RawTag: alias.String(), Val: val})
+				ds = append(ds, c06Defect{"compid-under-overflowing-tag", "plain", tag}, c06Defect{"compid-under-overflowing-tag", "drop", tag})
 			}
 		case 2: // SendingTime
 			if used["time"] {
@@ -456,7 +472,7 @@ func plantDefects(env *Env, c EngineCfg, n int, seqAllowed bool, s *Sut, pre42 b
 				o.NoSeq = true
 				ds = append(ds, c06Defect{"seq-missing", "plain", 34})
 			case k == 1:
-				o.SeqLiteral = []string{"abc", "1x", "--1"}[ch.Choose("badseq", 3)]
+				o.SeqLiteral = []string{"abc", "1x", "--1", new(big.Int).Add(new(big.Int).Lsh(big.NewInt(1), 64), big.NewInt(int64(T))).String()}[ch.Choose("badseq", 4)]
 				ds = append(ds, c06Defect{"seq-garbled", "plain", 34})
 			case T <= 1:
 				// nothing is "too low" yet
